@@ -62,6 +62,17 @@ def main():
                 os.remove(os.path.join(wt, pair.split(":")[1]))
             ok = passing_tests(wt)
             missing = [t for t in base if t not in ok]
+            # a panic in one test (weed/storage has a rand.Int63n(0) flake on the unchanged tree) kills its whole package: retry those packages
+            for attempt in range(3):
+                if not missing: break
+                pkgs = sorted({t.split("::")[0].replace("github.com/chrislusf/seaweedfs", ".") for t in missing})
+                rc, out = sh("go test -json -vet=off -count=1 -timeout 25m " + " ".join(pkgs), cwd=wt)
+                for l in out.split("\n"):
+                    if l.startswith("{"):
+                        try: e = json.loads(l)
+                        except Exception: continue
+                        if e.get("Action") == "pass" and e.get("Test"): ok.add("%s::%s" % (e["Package"], e["Test"]))
+                missing = [t for t in base if t not in ok]
             suite_ok = not missing
             meta["ran"].append({"cmd": "go test -json -vet=off -count=1 ./... (baseline stable_pass compared)", "tree": "changed", "missing_from_pass": missing})
         meta["confirmed"] = bool(rcb == 0 and rc0 == 0 and rc1 != 0 and (suite_ok is not False))
